@@ -17,15 +17,16 @@ mkdir -p "$R/harness/.cargo" "$R/verif"
 H=/verif/harness
 sed "s#/repo/#$R/repo/#g" $H/Cargo.toml > "$R/harness/Cargo.toml"
 cp $H/Cargo.lock "$R/harness/Cargo.lock"; cp $H/.cargo/config.toml "$R/harness/.cargo/config.toml"
-for c in vcore vcheck vft; do mkdir -p "$R/harness/$c"; ln -sfn $H/$c/src "$R/harness/$c/src"; cp $H/$c/Cargo.toml "$R/harness/$c/Cargo.toml"; done
+for c in vcore vcheck vft vtotal; do mkdir -p "$R/harness/$c"; ln -sfn $H/$c/src "$R/harness/$c/src"; cp $H/$c/Cargo.toml "$R/harness/$c/Cargo.toml"; done
 ln -sfn /verif/corpus "$R/verif/corpus"; ln -sfn /verif/known_findings.json "$R/verif/known_findings.json"
 mkdir -p "$R/verif/harness/target/tmp"
 cat > "$R/run" <<EOS
 #!/bin/bash
 # usage: run CNN [args...]
 ID="\$1"; shift
+/verif/tools/mkscratch.sh "$N" >/dev/null   # re-sync manifests with /verif/harness
 bin=\$(echo "\$ID" | tr 'A-Z' 'a-z'); profile=release; dir=release; pkg=vcheck
-case "\$ID" in C20) profile=strict; dir=strict ;; C03) pkg=vft; bin=vft ;; esac
+case "\$ID" in C01|C02|C13) pkg=vtotal ;; C20) pkg=vtotal; profile=strict; dir=strict ;; C03) pkg=vft; bin=vft ;; esac
 cd "$R/harness" && CARGO_NET_OFFLINE=true cargo build --profile \$profile -p \$pkg --bin \$bin 2>"$R/build.log" >/dev/null || { echo BUILD FAILED; grep -E '^error' -A8 "$R/build.log" | head -40; exit 2; }
 VERIF_REPO="$R/repo" VERIF_DIR="$R/verif" exec "$R/harness/target/\$dir/\$bin" "\$@"
 EOS
